@@ -526,10 +526,11 @@ main(int argc, char **argv) {
   for (tries = 0; tries < 50; tries++) {
     port = 20000 + (int)((getpid() * 7 + tries * 131 + seed) % 30000);
     srv_addr.addr.sin.sin_port = htons((uint16_t)port);
-    if (coap_new_endpoint(srv, &srv_addr, COAP_PROTO_UDP)) {
+    coap_endpoint_t *uep = coap_new_endpoint(srv, &srv_addr, COAP_PROTO_UDP);
+    if (uep) {
       if (coap_new_endpoint(srv, &srv_addr, COAP_PROTO_TCP))
         break;
-      return 5;
+      coap_free_endpoint(uep); /* the TCP port is taken: try another pair */
     }
   }
   if (tries == 50)
